@@ -103,8 +103,10 @@ impl EncodeAttributeValue for UserHash {
 }
 
 fn do_sha256(name: &str, realm: &str) -> Result<Vec<u8>, StunError> {
-    let name = strings::opaque_string_prepapre(name)?;
-    let realm = strings::opaque_string_prepapre(realm)?;
+    // userhash = SHA-256(OpaqueString(username) ":" OpaqueString(realm)): the
+    // enforced (mapped and normalised) form of both strings is hashed
+    let name = strings::opaque_string_enforce(name)?;
+    let realm = strings::opaque_string_enforce(realm)?;
     let val = format!("{}:{}", name, realm);
     let val = sha256(val.as_str());
     let val_len = val.len();
